@@ -261,7 +261,9 @@ func (progBldr *ProgBuilder) Deref() {
 		if err != nil {
 			ctx.execError(err.Error(), "")
 		}
-		ctx.actualPathStack.PushPath(lrefentry.GetSdcpbPath())
+		// The steps that follow are appended to the path on the stack: work
+		// on a copy, the object returned may be the entry's own
+		ctx.actualPathStack.PushPath(lrefentry.GetSdcpbPath().DeepCopy())
 	}
 
 	progBldr.CodeFn(derefFunc, "deref")
